@@ -19,7 +19,7 @@ LAYER = {1: "part-map: what a reader of the document in memory sees after this o
          5: "abstraction: duplicate keys in the abstracted state",
          6: "reads-neutral: a part set in memory has no current time stamp, the next get_part replaces it by the file's content",
          7: "rdf-replaced: save replaced a manifest.rdf held in memory and listed in the manifest by the default one"}
-WEIGHTS = dict(get=3, touch=4, edit=5, set=2, setxml=3, setnew=2, **{"del": 2}, addfile=2, save=6, saveself=2, reopen=5, clone=2)
+WEIGHTS = dict(get=3, touch=4, edit=5, set=2, setxml=3, setnew=2, **{"del": 2}, addfile=2, save=7, saveself=2, reopen=6, clone=2, shrink=2, grow=1)
 
 
 def make_histories(tier, rng):
@@ -56,6 +56,16 @@ def make_histories(tier, rng):
                    dict(op="touch", name="content.xml"), dict(op="save", packaging="zip", target="buf", pretty=False), dict(op="reopen", r=2)])
         hs.append([dict(st), dict(op="edit", name="content.xml", how="par", arg="x  y"), dict(op="save", packaging="xml", target="path", pretty=False),
                    dict(op="save", packaging="xml", target="buf", pretty=True), dict(op="save", packaging="folder", target="path", pretty=None), dict(op="reopen", r=1)])
+    # repeated saves into the SAME target (buffer object, file path, folder) with the document shrinking / growing in between,
+    # then reopen: the target must hold the last state only
+    for st in starts + [dict(op="open", src=s, buf=b) for s in small[:: (6 if tier == "quick" else 1)] for b in (False, True)]:
+        for pk, tg in (("zip", "buf"), ("zip", "path"), ("folder", "path")):
+            for first, second in (("grow", "shrink"), ("shrink", "grow"), ("grow", "grow")):
+                h = [dict(st), dict(op=first, r=rng.randrange(1 << 30)), dict(op="save", packaging=pk, target=tg, pretty=False),
+                     dict(op=second, r=rng.randrange(1 << 30)), dict(op="shrink", r=rng.randrange(1 << 30)) if second == "shrink" else dict(op="touch", r=1),
+                     dict(op="save", packaging=pk, target=tg, pretty=False, reuse=0), dict(op="reopen", r=1), dict(op="touch", name="content.xml"),
+                     dict(op="get", r=rng.randrange(1 << 30)), dict(op="save", packaging=pk, target=tg, pretty=False, reuse=0), dict(op="reopen", r=1)]
+                hs.append(h)
     # F35: a package without manifest.rdf, opened by path / by buffer; the user provides one and lists it; save
     import zipfile
     nordf = [s for s in small if "manifest.rdf" not in zipfile.ZipFile(s).namelist()][:2]
